@@ -306,7 +306,7 @@ func c09CrcLen(c *Ctx) {
 	p := c.P
 	rule := "C09.crc-len"
 	c.Doc(rule, "lengthField and crc32Field: run (encoder) and check (decoder) address the field at startOffset and cover the bytes from startOffset+4 to the current offset; both directions of crc32Field use the same crc() helper")
-	c.Floor(rule, 3)
+	c.Floor(rule, 4)
 	// lengthField: run stores curOffset-startOffset-4 ; check compares the same expression
 	exprOf := func(fn *ssa.Function) string {
 		var out []string
@@ -328,6 +328,56 @@ func c09CrcLen(c *Ctx) {
 		okRun := strings.Contains(exprOf(run), want)
 		okChk := strings.Contains(exprOf(chk), want)
 		c.Check(okRun && okChk, rule, run, "length-range", nil, "run writes and check compares curOffset-startOffset-4", "lengthField.run and lengthField.check do not compute the same covered length (curOffset-startOffset-4): a length prefix that disagrees with the data goes unnoticed or every message is rejected", nil)
+	}
+	// dynamic length prefixes (varint): the sizing pass corrects its running total by what adjustLength returns —
+	// the signed difference between the prefix size for the new length and the size reserved before.  Anything else
+	// (a clamp at zero, an absolute value) makes the sizing pass disagree with the writing pass whenever a prefix shrinks.
+	nAdj := 0
+	for _, fn := range p.Fns {
+		if fn.Pkg != p.Sarama || fn.Name() != "adjustLength" || fn.Signature.Recv() == nil {
+			continue
+		}
+		nAdj++
+		reg := WholeFn(fn)
+		ok := true
+		var at ssa.Instruction
+		rets := 0
+		for _, r := range reg.Find(IsReturn()) {
+			ret := r.In.(*ssa.Return)
+			if IsRecoverBlock(ret.Block()) {
+				continue
+			}
+			rets++
+			good := false
+			if bo, isB := RetVals(ret)[0].(*ssa.BinOp); isB && bo.Op == token.SUB {
+				after, ok1 := bo.X.(*ssa.Call)
+				before, ok2 := bo.Y.(*ssa.Call)
+				if ok1 && ok2 && after != before && strings.HasSuffix(p.CalleeName(&after.Call), ".reserveLength") && strings.HasSuffix(p.CalleeName(&before.Call), ".reserveLength") {
+					// the new length is stored between the two measurements
+					st := reg.Find(func(it Item) bool {
+						s, isS := it.In.(*ssa.Store)
+						if !isS {
+							return false
+						}
+						ch := fieldChain(s.Addr)
+						return len(ch) > 0 && ch[len(ch)-1].name == "length"
+					})
+					if len(st) == 1 {
+						b1, _ := reg.From(Item{In: before}.After()).Reach(IsItem(st[0]), nil)
+						b2, _ := reg.From(st[0].After()).Reach(Is(after), nil)
+						good = !b1.IsZero() && !b2.IsZero()
+					}
+				}
+			}
+			if !good {
+				ok, at = false, ret
+			}
+		}
+		c.Check(ok && rets > 0, rule, fn, "adjust-length-signed-difference", at, "adjustLength returns reserveLength() after the new length is stored minus reserveLength() before",
+			"adjustLength does not return the signed difference of the prefix sizes on every path: when the length prefix of a re-encoded record shrinks, the sizing pass keeps the larger size while the writing pass reserves the smaller one — the buffer has a stray trailing byte that the enclosing length and CRC fields cover", nil)
+	}
+	if nAdj == 0 {
+		c.Unresolved(rule, "adjustLength of the dynamic length fields")
 	}
 	crun, cchk, ccrc := p.Fn("crc32Field.run"), p.Fn("crc32Field.check"), p.Fn("crc32Field.crc")
 	if crun == nil || cchk == nil || ccrc == nil {
